@@ -220,10 +220,21 @@ pub fn carrier(cfg: &Config, auth: &BTreeSet<Mac>, p: &Pkt) -> Carrier {
         }
         _ => {}
     }
+    // A request whose checksums do not verify (IPv4 header, ICMP, ICMPv6, TCP, UDP - a zero UDP
+    // field counts as "no checksum" over IPv4 only) is no well-formed request: no statement says
+    // whether a responder answers it (the unchanged one does, one that verifies checksums does
+    // not), so it travels on an odd carrier.
+    if let L3::V4(h) = &p.l3 {
+        c.l3_ok = c.l3_ok && h.csum_ok;
+    }
     c.l4_ok = match &p.l4 {
-        L4::Tcp(t) => t.wf,
-        L4::Udp(u) => u.wf,
-        L4::Icmp4(_) | L4::Icmp6(_) => true,
+        // PSH and ACK together with RST or SYN: the statements speak of "a segment carrying PSH and
+        // ACK" (C07) and of "RST segments" / "SYN|ACK segments" that are never answered (C07, C12) -
+        // such a segment is both, and either reading is a responder the statements allow
+        L4::Tcp(t) if t.flags & (F_PSH | F_ACK) == (F_PSH | F_ACK) && t.flags & (F_RST | F_SYN) != 0 => false,
+        L4::Tcp(t) => t.wf && t.csum_ok,
+        L4::Udp(u) => u.wf && u.csum_ok,
+        L4::Icmp4(i) | L4::Icmp6(i) => i.csum_ok,
         _ => matches!(p.l3, L3::Arp(_)),
     };
     c
